@@ -176,7 +176,7 @@ func checkC15(c *km.Ctx) {
 		for _, ci := range km.CallsIn(fn) {
 			if km.CalleeFull(ci.Common()) == "(*encoding/gob.Encoder).Encode" {
 				n++
-				ok := km.Unwrap(km.CallArgs(ci.Common())[1]) == ssa.Value(fn.Params[2])
+				ok := km.Unwrap(km.CallArgs(ci.Common())[1]) == ssa.Value(km.ParamAt(fn, 2))
 				r.Add("R-C15-1", km.FuncName(fn), "encode the profile parameter", posOf(c, ci), "gob.Encode(profile param)", km.ValStr(km.CallArgs(ci.Common())[1]), ok)
 				continue
 			}
@@ -195,7 +195,7 @@ func checkC15(c *km.Ctx) {
 					args := km.CallArgs(ci.Common())
 					for i, q := range g.Params {
 						if q == p && i < len(args) {
-							ok = km.Unwrap(args[i]) == ssa.Value(fn.Params[2])
+							ok = km.Unwrap(args[i]) == ssa.Value(km.ParamAt(fn, 2))
 						}
 					}
 				}
@@ -279,7 +279,7 @@ func checkC15(c *km.Ctx) {
 	// ---------- R-C15-2 / R-C15-3: the synchronisation
 	cp := c.MustFunc("R-C15-2", "cmd/keymasterd", "copyDBIntoSQLite")
 	if cp != nil {
-		dest := cp.Params[1]
+		dest := km.ParamAt(cp, 1)
 		var begins []*ssa.Call
 		var commits []*ssa.Call
 		for _, ci := range km.CallsIn(cp) {
